@@ -251,11 +251,13 @@ CHECKS['C14'] = dict(
     text='Lean 4 theorems over the parser and HTML renderer models: lines on which no block-start scanner fires form '
          'exactly one Paragraph of exactly those lines (every token-type list containing Paragraph); a text meeting a '
          'decidable inertness condition (no backslash/backtick, < and & not starting a tag, autolink or reference, no '
-         '~~, no ] after the first [, every * or _ run unable to close by the flanking rules) yields no inline token '
+         '~~, no ] after the first [, every * or _ run unable to close by the flanking rules; widened in '
+         'Props/C14_Wide.lean: runs may open or close as long as no opener precedes a closer of the same character, '
+         '"&...;" that html.unescape leaves alone, "]" after "[" when neither "(" nor "[" follows) yields no inline token '
          'candidate at all; end to end Document(text) is one Paragraph of raw text and soft breaks and the renderer '
          'writes "<p>" + escape(text) + "</p>" for every option set. The hypotheses are executable: each run evaluates '
          'them in Lean on thousands of generated paragraphs and checks the theorem\'s conclusion on the REAL renderer '
-         'wherever they hold; the share of the specification-derived inert domain they cover is measured (about 60%); '
+         'wherever they hold; the share of the specification-derived inert domain they cover is measured (about 87-95%); '
          'the rest of that domain is explored against an independent spec-derived predicate.',
     note='Trusted: Lean kernel (axioms propext/Classical.choice/Quot.sound at most); doc correspondence; the second '
          'driver (PropsMain.lean) evaluating the hypotheses; the spec-derived predicate of the exploration.',
@@ -301,7 +303,7 @@ CHECKS['C13'] = dict(
 
 CHECKS['C09'] = dict(
     text='Lean theorems (Props/C09.lean) over the parser model and the model of markdown_renderer.py, for the fragment: documents of '
-         'inert prose paragraphs, ATX headings and thematic breaks in the renderer\'s normal form, separated by single empty lines, '
+         'inert prose paragraphs, ATX headings, thematic breaks, fenced and indented code blocks (Props/C09_Code.lean) in the renderer\'s normal form, separated by single empty lines, '
          'inside any number of nested block quotes, no line limit, either value of normalize_whitespace: the document is reproduced '
          'byte for byte (C09_blocks_exact_partial, C09_prose_exact_partial), rendering again reproduces it, and the rendered text '
          'parses to the same document with the same definitions and the same HTML under every configuration '
